@@ -399,14 +399,21 @@ Proof.
   unfold d_lead, d_small. rewrite !hom_tolp. reflexivity.
 Qed.
 
+Lemma hom_scorecov_ok n T lams scs Z :
+  scorecov_ok oa n T lams scs Z = scorecov_ok ob n (f T) (fv lams) (fv scs) (fm Z).
+Proof.
+  unfold scorecov_ok. rewrite hom_projcov_ok, hom_cov, !map_length. f_equal. f_equal.
+  rewrite forallb_map. apply forallb_ext_in. intros z _. rewrite map_length. reflexivity.
+Qed.
+
 (** the whole record: booleans agree, trace and certificate matrix are the images *)
-Theorem hom_pca_checks n p k whiten X mu sg W ev evr Qs invs :
-  let ka := pca_checks oa n p k whiten X mu sg W ev evr Qs invs in
-  let kb := pca_checks ob n p k whiten (fm X) (fv mu) (fv sg) (fm W) (fv ev) (fv evr) (fm Qs) (fm invs) in
+Theorem hom_pca_checks n p k whiten X mu sg W ev evr Qs invs Zs :
+  let ka := pca_checks oa n p k whiten X mu sg W ev evr Qs invs Zs in
+  let kb := pca_checks ob n p k whiten (fm X) (fv mu) (fv sg) (fm W) (fv ev) (fv evr) (fm Qs) (fm invs) (fm Zs) in
   k_mean ka = k_mean kb /\ k_shape ka = k_shape kb /\ k_sigma ka = k_sigma kb /\ k_orth ka = k_orth kb /\
   k_projcov ka = k_projcov kb /\ k_ev ka = k_ev kb /\ k_ratio ka = k_ratio kb /\
   k_roundtrip ka = k_roundtrip kb /\ k_resid ka = k_resid kb /\ k_coefs ka = k_coefs kb /\
-  k_bound ka = k_bound kb /\ f (k_T ka) = k_T kb /\ fm (k_M ka) = k_M kb.
+  k_bound ka = k_bound kb /\ k_scores ka = k_scores kb /\ f (k_T ka) = k_T kb /\ fm (k_M ka) = k_M kb.
 Proof.
   cbv zeta. unfold pca_checks. cbv zeta. simpl.
   assert (EC : fm (cov oa n p X) = cov ob n p (fm X)) by apply hom_cov.
@@ -438,6 +445,7 @@ Proof.
   - rewrite hom_resid_ok, ET, EL, ECW. reflexivity.
   - rewrite hom_coefs_ok, ECf. reflexivity.
   - rewrite hom_bound_ok, ET, EM, ESh, ECf, ES, EG. reflexivity.
+  - rewrite hom_scorecov_ok, ET, EL, ES. reflexivity.
   - exact ET.
   - rewrite hom_Mlead, EC, ESh, ECf. reflexivity.
 Qed.
@@ -948,8 +956,8 @@ Qed.
 
 (** for real data: if the checker's conjuncts hold and the certificate matrix is PSD, no orthonormal
     k-frame retains more variance than the returned components, up to the stated slack *)
-Theorem leading_subspace_R n p k whiten X mu sg W ev evr Qs invs :
-  let ks := pca_checks oR n p k whiten X mu sg W ev evr Qs invs in
+Theorem leading_subspace_R n p k whiten X mu sg W ev evr Qs invs Zs :
+  let ks := pca_checks oR n p k whiten X mu sg W ev evr Qs invs Zs in
   let C := cov oR n p X in
   let lams := lams_of oR n sg in
   let scs := scs_of oR whiten lams in
@@ -976,8 +984,8 @@ Proof.
 Qed.
 
 (** the same for the exact dyadic evaluation on the implementation's output *)
-Theorem leading_subspace_certified n p k whiten (X : list (list dq)) mu sg W ev evr Qs invs :
-  let ks := pca_checks DQ_ops n p k whiten X mu sg W ev evr Qs invs in
+Theorem leading_subspace_certified n p k whiten (X : list (list dq)) mu sg W ev evr Qs invs Zs :
+  let ks := pca_checks DQ_ops n p k whiten X mu sg W ev evr Qs invs Zs in
   k_shape ks = true -> k_coefs ks = true -> k_bound ks = true -> lead_psd p (k_T ks) (k_M ks) = true ->
   let XR := map (map D2R) X in
   let WR := map (map D2R) W in
@@ -991,11 +999,11 @@ Theorem leading_subspace_certified n p k whiten (X : list (list dq)) mu sg W ev 
     + (INR (N.to_nat k) * tolR 17 + tolR 20) * trace oR C.
 Proof.
   cbv zeta. intros Hs Hc Hb HL U HO FU LU.
-  destruct (hom_pca_checks D2R DQ_ops oR D2R_hom n p k whiten X mu sg W ev evr Qs invs)
-    as (_ & E2 & _ & _ & _ & _ & _ & _ & _ & E10 & E11 & _ & EM).
+  destruct (hom_pca_checks D2R DQ_ops oR D2R_hom n p k whiten X mu sg W ev evr Qs invs Zs)
+    as (_ & E2 & _ & _ & _ & _ & _ & _ & _ & E10 & E11 & _ & _ & EM).
   cbv zeta in E2, E10, E11, EM. rewrite E2 in Hs. rewrite E10 in Hc. rewrite E11 in Hb.
   pose proof (leading_subspace_R n p k whiten (map (map D2R) X) (map D2R mu) (map D2R sg) (map (map D2R) W)
-                (map D2R ev) (map D2R evr) (map (map D2R) Qs) (map (map D2R) invs)) as R.
+                (map D2R ev) (map D2R evr) (map (map D2R) Qs) (map (map D2R) invs) (map (map D2R) Zs)) as R.
   cbv zeta in R. rewrite map_length in R. apply R; auto.
   rewrite <- EM. apply (lead_psd_sound p _ _ HL). rewrite EM.
   unfold pca_checks. cbv zeta. cbn [k_M].
@@ -1452,16 +1460,18 @@ Definition exX : list (list dq) :=
 Definition exq (z : Z) : dq := mkdq z 0 1.
 Definition ex_checks := pca_checks DQ_ops 5 2 1 false exX [exq 0; exq 0] [exq 2] [[exq 1; exq 0]]
                                    [exq 1] [exq 1] exX
-                                   (map (map (fun z => mkdq z (-1) 1)) [[2; 0]; [-2; 0]; [2; 0]; [-2; 0]; [0; 0]]%Z).
+                                   (map (map (fun z => mkdq z (-1) 1)) [[2; 0]; [-2; 0]; [2; 0]; [-2; 0]; [0; 0]]%Z)
+                                   (map (map (fun z => mkdq z (-1) 1)) [[2]; [-2]; [2]; [-2]; [0]]%Z).
 Example ex_all_conjuncts :
   k_mean ex_checks = true /\ k_shape ex_checks = true /\ k_sigma ex_checks = true /\ k_orth ex_checks = true /\
   k_projcov ex_checks = true /\ k_ev ex_checks = true /\ k_ratio ex_checks = true /\ k_roundtrip ex_checks = true /\
   k_resid ex_checks = true /\ k_coefs ex_checks = true /\ k_bound ex_checks = true /\
+  k_scores ex_checks = true /\
   lead_psd 2 (k_T ex_checks) (k_M ex_checks) = true.
 Proof. vm_compute. repeat split. Qed.
 (* the second axis alone is an orthonormal direction but not the leading one: the certificate refuses it *)
 Definition ex_checks_wrong := pca_checks DQ_ops 5 2 1 false exX [exq 0; exq 0] [exq 1] [[exq 0; exq 1]]
-                                   [mkdq 1 (-2) 1] [exq 1] [] [].
+                                   [mkdq 1 (-2) 1] [exq 1] [] [] [].
 Example ex_wrong_axis_rejected :
   k_resid ex_checks_wrong = true /\ lead_psd 2 (k_T ex_checks_wrong) (k_M ex_checks_wrong) = false.
 Proof. vm_compute. split; reflexivity. Qed.
